@@ -284,4 +284,266 @@ Proof.
     constructor; [exact AO|]. rewrite V2 in F2. exact F2.
 Qed.
 
+Lemma pat_reads ty text st attrs st' sep : PAT ty text st = Val (Ret attrs st') -> no_byte 62 text -> is_ws sep = true ->
+  exists xs trail, sep :: text = r_atts xs ++ trail /\ Forall WfAttr xs /\ WfTrail trail /\
+    Forall2 (ATTROF (p_version st) ty) xs attrs /\ p_lex st' = p_lex st /\ p_version st' = p_version st.
+Proof.
+  intros H N62 SEP.
+  destruct (LV_inv _ _ _ _ (kp_pat LV LV_W LV_C T tab_at tab_en check_fn float_parse true ty text) H) as [LX VX].
+  unfold parse_attribute_text in H.
+  set (rem0 := match position (fun c => negb (is_ws c)) text with Some p => skipn p text | None => text end) in *.
+  assert (E0 : exists w, text = w ++ rem0 /\ allws w /\ (w <> [] \/ True)).
+  { unfold rem0. destruct (position (fun c => negb (is_ws c)) text) as [p|] eqn:P.
+    - exists (firstn p text). split; [symmetry; apply firstn_skipn|]. split; [|auto].
+      destruct (position_Some _ _ P) as (_ & _ & NO). unfold allws. rewrite forallb_forall in *. intros x I. specialize (NO x I).
+      apply negb_true_iff, negb_false_iff in NO. exact NO.
+    - exists []. split; [reflexivity|]. split; [reflexivity|auto]. }
+  destruct E0 as (w & ET & AW & _).
+  inv H as r s1 E1. destruct r as [rem attrs0].
+  inv H as g s2 E2. apply get_ret_inv in E2 as [-> ->].
+  inv H as u1 s3 E3. apply guard_strict_ret in E3 as [GC ->].
+  inv H as specs s4 E4. inv H as u2 s5 E5. injection H as <- _.
+  assert (WR : forallb is_ws rem = true).
+  { destruct rem as [|y r]; [reflexivity|]. cbn [negb andb] in GC. apply negb_false_iff in GC. exact GC. }
+  assert (N0 : no_byte 62 rem0) by (rewrite ET in N62; apply no_byte_app in N62 as [_ B]; exact B).
+  assert (PN : sep :: w <> [] \/ rem0 = []) by (left; discriminate).
+  assert (PW : allws (sep :: w)) by (unfold allws in *; cbn [forallb]; rewrite SEP; exact AW).
+  destruct (al_reads _ ty rem0 [] st rem attrs0 s1 (sep :: w) E1 WR PN PW N0) as (xs & trail & news & E & WX & WT & EA & F2).
+  exists xs, trail. cbn [app] in EA. subst attrs0. split; [rewrite ET; exact E|]. auto 6.
+Qed.
+
+(* a start tag or an empty element tag whose attribute text the loader accepts: the bytes between '<' and '>' / '/>' *)
+Lemma tag_reads inner name text ty st attrs st' n :
+  split_tag inner = (name, text) -> no_byte 62 inner -> PAT ty text st = Val (Ret attrs st') -> from_bytes tab_el name = Ok n ->
+  exists atts trail, inner = name ++ r_atts atts ++ trail /\ clean_name name = true /\ Forall WfAttr atts /\ WfTrail trail /\
+    Forall2 (ATTROF (p_version st) ty) atts attrs /\ p_lex st' = p_lex st /\ p_version st' = p_version st.
+Proof.
+  intros ST N62 H FB. pose proof (names_clean_spec _ CLEAN_EL _ _ FB) as CN. unfold split_tag in ST.
+  destruct (position is_ws inner) as [sp|] eqn:P.
+  - injection ST as <- <-. destruct (position_split _ _ P) as (x & WX & E).
+    assert (N62T : no_byte 62 (skipn (S sp) inner)).
+    { rewrite E in N62. apply no_byte_app in N62 as [_ B]. unfold no_byte in *. cbn [forallb] in B. apply andb_prop in B as [_ B]. exact B. }
+    destruct (pat_reads ty _ st attrs st' x H N62T WX) as (xs & trail & EQ & W1 & W2 & F & L & V).
+    exists xs, trail. split; [rewrite <- EQ; exact E|]. auto 8.
+  - injection ST as <- <-.
+    destruct (LV_inv _ _ _ _ (kp_pat LV LV_W LV_C T tab_at tab_en check_fn float_parse true ty []) H) as [LX VX].
+    assert (AE : attrs = []).
+    { unfold parse_attribute_text in H. cbn [position List.length attr_loop find_byte] in H.
+      inv H as r s1 E1. injection E1 as <- <-. inv H as g s2 E2. inv H as u1 s3 E3. inv H as specs s4 E4. inv H as u2 s5 E5.
+      injection H as <- _. reflexivity. }
+    subst attrs. exists [], []. split; [cbn; rewrite app_nil_r; reflexivity|]. split; [exact CN|]. split; [constructor|].
+    split; [left; reflexivity|]. split; [constructor|auto].
+Qed.
+
+(* ---------- items ---------- *)
+Lemma wfitems_app a b : WfItems a -> WfItems b -> (a <> [] -> is_xtext (last a (XPI [])) = true -> head_is_text b = false) ->
+  WfItems (a ++ b).
+Proof.
+  induction 1 as [|x r WX WR IH HT]; intros WB LB; [exact WB|]. cbn [app]. constructor; [exact WX| |].
+  - apply IH; [exact WB|]. intros NE L. apply LB; [discriminate|]. destruct r; [congruence|exact L].
+  - intros IT. destruct r as [|y r']; [cbn [app]; apply LB; [discriminate|exact IT]|exact (HT IT)].
+Qed.
+
+Lemma interp_skip ver ty pend pre sk rest out : Forall is_misc sk ->
+  INTERPK ver ty pend pre rest out -> INTERPK ver ty pend pre (sk ++ rest) out.
+Proof.
+  induction 1 as [|x sk MX _ IH]; intros H; [exact H|]. cbn [app]. destruct x as [t|c|b|? ? ? ? ?]; cbn in MX.
+  - apply ik_blank; [exact MX|exact (IH H)].
+  - destruct MX.
+  - apply ik_pi. exact (IH H).
+  - destruct MX.
+Qed.
+
+Lemma pnext_inv st ev s2 : pnext st = Val (Ret ev s2) ->
+  exists line l', next (p_lex st) = Val (LOk line ev l') /\ p_lex s2 = l' /\ p_version s2 = p_version st.
+Proof.
+  unfold pnext. destruct (next (p_lex st)) as [[line e l'|line e]| |]; try discriminate. intros [= <- <-]. eauto.
+Qed.
+
+(* ---------- elements ---------- *)
+Definition etag (nm : list N) : list N := [60; 47] ++ nm ++ [62].
+
+Definition recT := N -> etype -> list (N * cdata) -> option (list N) -> list N -> list nat -> M etree.
+
+(* what one run of the loop of parse_element has read: the content items up to and including the end tag *)
+Definition LoopR (st st' : pstate) (nm : list N) (kids : list xml) : Prop :=
+  match l_deferred (p_lex st) with
+  | None => l_rest (p_lex st) = render_items kids ++ etag nm ++ l_rest (p_lex st') /\
+            (at_markup (l_rest (p_lex st)) -> head_is_text kids = false)
+  | Some _ => kids = [] /\ l_rest (p_lex st') = l_rest (p_lex st)
+  end.
+
+Definition rec_reads (rec : recT) : Prop :=
+  forall n ty a c p ps st sub st' nm, rec n ty a c p ps st = Val (Ret sub st') -> from_bytes tab_el nm = Ok n ->
+    exists content kids, sub = ENode n ty a content c /\ p_version st' = p_version st /\ l_deferred (p_lex st') = None /\
+      WfItems kids /\ INTERPK (p_version st) ty None [] kids content /\ LoopR st st' nm kids.
+
+Lemma same_name nm1 nm2 n : from_bytes tab_el nm1 = Ok n -> from_bytes tab_el nm2 = Ok n -> nm1 = nm2.
+Proof. intros A B. apply from_bytes_only_members in A, B. congruence. Qed.
+
+Lemma pe_loop_reads (rec : recT) : rec_reads rec ->
+  forall k name ty attrs comment pos content elem_idx snf stored path st t st' nm,
+  PL rec k name ty attrs comment pos content elem_idx snf stored path st = Val (Ret t st') -> from_bytes tab_el nm = Ok name ->
+  exists more kids, t = ENode name ty attrs (content ++ more) comment /\ p_version st' = p_version st /\
+    l_deferred (p_lex st') = None /\ WfItems kids /\ INTERPK (p_version st) ty stored content kids more /\ LoopR st st' nm kids.
+Proof.
+  intros HR. induction k as [|k IH]; intros name ty attrs comment pos content elem_idx snf stored path st t st' nm H FBN;
+    [discriminate H|].
+  cbn [pe_loop] in H.
+  inv H as u1 s1 E1. injection E1 as _ <-. inv H as ev s2 E2.
+  destruct (pnext_inv _ _ _ E2) as (line & l' & NX & PL2 & V2). cbn [p_lex p_version set_cur] in NX, V2.
+  destruct (l_deferred (p_lex st)) as [dn|] eqn:DF.
+  { (* a deferred end tag *)
+    destruct (next_deferred_reads _ _ _ _ _ DF NX) as (-> & LR & LD).
+    inv H as nm0 s3 E3. apply lift_ret_inv in E3 as [NO ->]. destruct nm0 as [n|]; [|discriminate H].
+    destruct (n =? name); [|discriminate H].
+    assert (KP : kpres LV (mbind get (fun st0 => mbind (lift (is_named_in_version T ty (p_version st0))) (fun named =>
+                   mbind (if negb snf && named then optional_error true RequiredSubelementMissing name (name_short_name T) else ret tt)
+                     (fun _ => ret (ENode name ty attrs content comment)))))).
+    { repeat first [apply kpres_bind; [|intros] | apply kpres_get | apply kpres_lift | apply kpres_ret | apply (kpres_optional_error LV LV_W)
+                   | match goal with |- kpres _ (if ?c then _ else _) => destruct c end]. }
+    destruct (LV_inv _ _ _ _ KP H) as [L9 V9].
+    inv H as g1 s4 E4. inv H as named s5 E5. inv H as u6 s6 E6. injection H as <- _.
+    exists [], []. rewrite app_nil_r. split; [reflexivity|]. split; [congruence|]. split; [rewrite L9, PL2; exact LD|].
+    split; [constructor|]. split; [constructor|]. unfold LoopR. rewrite DF. split; [reflexivity|]. rewrite L9, PL2. exact LR. }
+  destruct (next_reads _ _ _ _ DF NX) as (sk & WSK & MSK & HM & LT & ALT).
+  destruct ALT as [(-> & _)|(bytes & TK & RB & CB)]; [discriminate H|].
+  (* the frame shared by all continuing branches: an item x read by this step, then the rest of the loop *)
+  assert (CONT : forall x content' stored' elem_idx' snf' path' s9 (more' : list (etree + cdata)) (first : list (etree + cdata)),
+            WfX x -> (is_xtext x = true -> is_chars ev = true) -> (is_chars ev = true -> is_xtext x = true) ->
+            l_rest (p_lex st) = render_items sk ++ render x ++ l_rest (p_lex s9) ->
+            (is_xtext x = true -> at_markup (l_rest (p_lex s9))) -> l_deferred (p_lex s9) = None ->
+            p_version s9 = p_version st ->
+            PL rec k name ty attrs comment pos content' elem_idx' snf' stored' path' s9 = Val (Ret t st') ->
+            content' = content ++ first ->
+            (forall kids' out, INTERPK (p_version st) ty stored' content' kids' out ->
+                               INTERPK (p_version st) ty stored content (x :: kids') (first ++ out)) ->
+            exists more kids, t = ENode name ty attrs (content ++ more) comment /\ p_version st' = p_version st /\
+              l_deferred (p_lex st') = None /\ WfItems kids /\ INTERPK (p_version st) ty stored content kids more /\ LoopR st st' nm kids).
+  { intros x content' stored' elem_idx' snf' path' s9 more' first WX XT1 XT2 RX AMX D9 V9 HL EC IK.
+    destruct (IH _ _ _ _ _ _ _ _ _ _ _ _ _ _ HL FBN) as (more & kids & -> & VF & DFF & WK & IKK & LR).
+    rewrite V9 in *. subst content'. exists (first ++ more), (sk ++ x :: kids). split; [rewrite <- app_assoc; reflexivity|].
+    split; [exact VF|]. split; [exact DFF|]. unfold LoopR in LR. rewrite D9 in LR. destruct LR as [LR HK]. split.
+    - apply wfitems_app; [exact WSK| |].
+      + constructor; [exact WX|exact WK|]. intros IT. exact (HK (AMX IT)).
+      + intros NE L. cbn [head_is_text]. specialize (LT NE L). destruct (is_xtext x) eqn:IX; [|reflexivity]. rewrite (XT1 eq_refl) in LT. discriminate LT.
+    - split; [apply interp_skip; [exact MSK|]; apply IK; exact IKK|].
+      unfold LoopR. rewrite DF. split.
+      + rewrite render_items_app, render_items_cons, RX, LR. rewrite <- !app_assoc. reflexivity.
+      + intros A. destruct (HM A) as [H1 H2]. destruct sk as [|y sk']; [|exact H1]. cbn [app head_is_text].
+        specialize (H2 eq_refl). destruct (is_xtext x) eqn:IX; [|reflexivity]. rewrite (XT1 eq_refl) in H2. discriminate H2. }
+  destruct ev as [sa|elem_text attr_text|elem_text|text|c|].
+  - inv H as u3 s3 E3. destruct (oe_strict_ret _ _ _ _ _ _ E3).
+  - (* a sub-element *)
+    inv H as nmo s3 E3. apply lift_ret_inv in E3 as [NO ->]. destruct nmo as [sub_name|]; [|discriminate H].
+    assert (FBS : from_bytes tab_el elem_text = Ok sub_name).
+    { unfold name_of in NO. destruct (from_bytes tab_el elem_text); try discriminate NO. injection NO as ->. reflexivity. }
+    inv H as r s4 E4. destruct r as [sub_ty idx'].
+    destruct (LV_inv _ _ _ _ (kp_find_elem LV LV_W LV_C T true _ _) E4) as [L4 V4]. apply find_elem_ret in E4.
+    inv H as u5 s5 E5. destruct (LV_inv _ _ _ _ (kp_conflict LV LV_W T true _ _ _ _) E5) as [L5 V5].
+    inv H as u6 s6 E6.
+    assert (LV6 : p_lex s6 = p_lex s5 /\ p_version s6 = p_version s5).
+    { destruct content; [injection E6 as _ <-; auto|exact (LV_inv _ _ _ _ (kp_mult LV LV_W T true _ _ _ _) E6)]. }
+    destruct LV6 as [L6 V6].
+    inv H as sub_attrs s7 E7. inv H as sub s8 E8.
+    assert (V6' : p_version s6 = p_version st) by congruence.
+    assert (L6' : p_lex s6 = l') by congruence.
+    (* the tag *)
+    assert (TAG : exists inner (sc : bool), bytes = [60] ++ inner ++ (if sc then [47; 62] else [62]) /\ no_byte 62 inner /\
+                    split_tag inner = (elem_text, attr_text) /\ l_deferred l' = (if sc then Some elem_text else None)).
+    { inversion TK; subst; [exists inner, false|exists inner, true]; auto. }
+    destruct TAG as (inner & sc & EB & N62 & ST & DL).
+    destruct (tag_reads inner elem_text attr_text sub_ty s6 sub_attrs s7 sub_name ST N62 E7 FBS)
+      as (atts & trail & EI & CN & WA & WT & F2 & L7 & V7).
+    destruct (HR _ _ _ _ _ _ _ _ _ elem_text E8 FBS) as (subcontent & subkids & -> & V8 & D8 & WSUB & IKS & LRS).
+    assert (V7' : p_version s7 = p_version st) by congruence.
+    assert (L7' : p_lex s7 = l') by congruence.
+    rewrite V7' in IKS. rewrite V6' in F2. rewrite V2 in E4.
+    unfold LoopR in LRS. rewrite L7', DL in LRS.
+    assert (SCK : sc = true -> subkids = []) by (intros ->; exact (proj1 LRS)).
+    assert (RXE : bytes ++ l_rest l' = render (XElem elem_text atts trail sc subkids) ++ l_rest (p_lex s8)).
+    { rewrite render_elem, EB, EI. destruct sc.
+      - destruct LRS as [_ LRS]. rewrite LRS. rewrite <- !app_assoc. reflexivity.
+      - destruct LRS as [LRS _]. rewrite LRS. unfold etag. rewrite <- !app_assoc. reflexivity. }
+    assert (WXE : WfX (XElem elem_text atts trail sc subkids)) by (constructor; assumption).
+    assert (FIN : forall snf2 p2 s9, p_lex s9 = p_lex s8 -> p_version s9 = p_version s8 ->
+              PL rec k name ty attrs comment pos (content ++ [inl (ENode sub_name sub_ty sub_attrs subcontent stored)]) idx' snf2 None p2 s9 = Val (Ret t st') ->
+              exists more kids, t = ENode name ty attrs (content ++ more) comment /\ p_version st' = p_version st /\
+                l_deferred (p_lex st') = None /\ WfItems kids /\ INTERPK (p_version st) ty stored content kids more /\ LoopR st st' nm kids).
+    { intros snf2 p2 s9 L9 V9 HL.
+      apply (CONT (XElem elem_text atts trail sc subkids) (content ++ [inl (ENode sub_name sub_ty sub_attrs subcontent stored)]) None idx' snf2 p2 s9 [] [inl (ENode sub_name sub_ty sub_attrs subcontent stored)] WXE);
+        try (intros; discriminate); try reflexivity.
+      - rewrite RB, L9, <- RXE. reflexivity.
+      - rewrite L9. exact D8.
+      - congruence.
+      - exact HL.
+      - intros kids' out IK. cbn [app]. eapply ik_elem; [cbn [e_name]; exact E4| |exact IK].
+        constructor; assumption. }
+    destruct ((sub_name =? name_short_name T) && match content with [] => true | _ :: _ => false end).
+    + destruct (first_string _).
+      * inv H as u9 s9 E9. injection E9 as _ <-. eapply FIN; [| |exact H]; reflexivity.
+      * eapply FIN; [| |exact H]; reflexivity.
+    + eapply FIN; [| |exact H]; reflexivity.
+  - (* the end tag *)
+    inv H as nm0 s3 E3. apply lift_ret_inv in E3 as [NO ->]. destruct nm0 as [n|]; [|discriminate H].
+    destruct (n =? name) eqn:EN; [|discriminate H]. apply N.eqb_eq in EN. subst n.
+    assert (FBE : from_bytes tab_el elem_text = Ok name).
+    { unfold name_of in NO. destruct (from_bytes tab_el elem_text); try discriminate NO. injection NO as ->. reflexivity. }
+    pose proof (same_name _ _ _ FBE FBN) as ->.
+    assert (KP : kpres LV (mbind get (fun st0 => mbind (lift (is_named_in_version T ty (p_version st0))) (fun named =>
+                   mbind (if negb snf && named then optional_error true RequiredSubelementMissing name (name_short_name T) else ret tt)
+                     (fun _ => ret (ENode name ty attrs content comment)))))).
+    { repeat first [apply kpres_bind; [|intros] | apply kpres_get | apply kpres_lift | apply kpres_ret | apply (kpres_optional_error LV LV_W)
+                   | match goal with |- kpres _ (if ?c then _ else _) => destruct c end]. }
+    destruct (LV_inv _ _ _ _ KP H) as [L9 V9].
+    inv H as g1 s4 E4. inv H as named s5 E5. inv H as u6 s6 E6. injection H as <- _.
+    assert (DL : l_deferred l' = None /\ bytes = etag nm) by (inversion TK; subst; auto).
+    destruct DL as [DL ->].
+    exists [], sk. rewrite app_nil_r. split; [reflexivity|]. split; [congruence|]. split; [rewrite L9, PL2; exact DL|].
+    split; [exact WSK|]. split; [rewrite <- (app_nil_r sk); apply interp_skip; [exact MSK|constructor]|].
+    unfold LoopR. rewrite DF. split; [rewrite L9, PL2; exact RB|]. intros A. exact (proj1 (HM A)).
+  - (* character data *)
+    inv H as spec s3 E3. apply lift_ret_inv in E3 as [CS ->]. destruct spec as [cs|].
+    2:{ inv H as u4 s4 E4. destruct (oe_strict_ret _ _ _ _ _ _ E4). }
+    inv H as mode sm Em. apply lift_ret_inv in Em as [CM ->].
+    destruct ((mode =? MCharacters) && negb match content with [] => true | _ :: _ => false end) eqn:GD.
+    { inv H as ux sx Ex. destruct (oe_strict_ret _ _ _ _ _ _ Ex). }
+    inv H as value s4 E4. destruct (LV_inv _ _ _ _ (kp_pcd LV LV_W LV_C tab_en check_fn float_parse true _ _) E4) as [L4 V4].
+    apply pcd_value in E4. rewrite V2 in E4.
+    inv H as isr s5 E5. apply lift_ret_inv in E5 as [_ ->]. inv H as u6 s6 E6.
+    assert (LV6 : p_lex s6 = p_lex s4 /\ p_version s6 = p_version s4).
+    { destruct value; try (injection E6 as _ <-; auto). destruct isr; injection E6 as _ <-; auto. }
+    destruct LV6 as [L6 V6].
+    assert (TX : bytes = text /\ text <> [] /\ no_byte 60 text /\ forallb is_ws text = false /\ l_deferred l' = None) by (inversion TK; subst; auto).
+    destruct TX as (-> & TNE & T60 & TWS & DL).
+    apply (CONT (XText text) (content ++ [inr value]) stored elem_idx snf path s6 [] [inr value]); try reflexivity.
+    + constructor; assumption.
+    + rewrite L6, L4, PL2. exact RB.
+    + intros _. rewrite L6, L4, PL2. exact (CB eq_refl).
+    + rewrite L6, L4, PL2. exact DL.
+    + congruence.
+    + exact H.
+    + intros kids' out IK. cbn [app]. eapply ik_text; [exact TWS|exact CS|exact CM| |exact E4|exact IK].
+      intros ->. rewrite N.eqb_refl in GD. cbn [andb] in GD. apply negb_false_iff in GD. destruct content; [reflexivity|discriminate GD].
+  - (* a comment *)
+    assert (TX : bytes = comment_text c ++ [62] /\ CommentOk c /\ l_deferred l' = None) by (inversion TK; subst; auto).
+    destruct TX as (-> & CO & DL).
+    apply (CONT (XComment c) content (Some (utf8_lossy c)) elem_idx snf path s2 [] []); try (intros; discriminate); try reflexivity.
+    + constructor. exact CO.
+    + rewrite PL2. exact RB.
+    + rewrite PL2. exact DL.
+    + exact V2.
+    + exact H.
+    + symmetry. apply app_nil_r.
+    + intros kids' out IK. cbn [app]. apply ik_comment. exact IK.
+  - discriminate H.
+Qed.
+
+Lemma parse_element_reads fuel lfuel : rec_reads (PE fuel lfuel).
+Proof.
+  induction fuel as [|f IH]; intros n ty a c p ps st sub st' nm H FB; [discriminate H|]. cbn [parse_element] in H.
+  destruct (pe_loop_reads _ IH _ _ _ _ _ _ _ _ _ _ _ _ _ _ _ H FB) as (more & kids & -> & V & D & W & IK & LR).
+  exists more, kids. auto 8.
+Qed.
+
 End Faithful.
